@@ -53,3 +53,32 @@ pub fn err_name(e: &e57::Error) -> &'static str {
 pub fn guard<T>(f: impl FnOnce() -> T) -> Option<T> {
     std::panic::catch_unwind(std::panic::AssertUnwindSafe(f)).ok()
 }
+
+use std::cell::RefCell;
+use std::collections::HashMap;
+thread_local! {
+    static BASES: RefCell<HashMap<String, Vec<u8>>> = RefCell::new(HashMap::new());
+}
+
+/// BASE <name> <hex>: remember a file image for later cases
+pub fn register_base(name: &str, hexs: &str) {
+    BASES.with(|b| b.borrow_mut().insert(name.to_string(), unhex(hexs)));
+}
+
+/// A device image token: plain hex, or @name[^pos:xorbyte]... (a registered image with bytes xored)
+pub fn resolve_dev(tok: &str) -> Vec<u8> {
+    if let Some(rest) = tok.strip_prefix('@') {
+        let mut parts = rest.split('^');
+        let name = parts.next().unwrap();
+        let mut v = BASES.with(|b| b.borrow().get(name).cloned()).expect("unknown base image");
+        for p in parts {
+            let (pos, x) = p.split_once(':').unwrap();
+            let pos: usize = pos.parse().unwrap();
+            let x = u8::from_str_radix(x, 16).unwrap();
+            v[pos] ^= x;
+        }
+        v
+    } else {
+        unhex(tok)
+    }
+}
